@@ -28,7 +28,8 @@ class PROP(Prop):
     targets = [f"{SR}.remove", f"{SR}.receive_directory_structure#entry", SR,
                f"walk::{SR}.receive_directory_structure#walk",
                f"snd::{RSYNC}:RSync._send_link", f"snd::{RSYNC}:RSync._send_link_structure", f"snd::{RSYNC}:RSync._send_directory_structure", f"snd::{RSYNC}:RSync._send_directory",
-               f"snd::{RSYNC}:RSync._send_item", f"snd::{RSYNC}:RSync._process_link"]
+               f"snd::{RSYNC}:RSync._send_item", f"snd::{RSYNC}:RSync._process_link",
+               f"snd::{RSYNC}:RSync._done", f"snd::{RSYNC}:RSync._end_of_channel"]   # several targets: finishing one leaves what the others still need (frame of _done)
     heavy = {f"walk::{SR}.receive_directory_structure#walk": 16, SR: 12, f"snd::{RSYNC}:RSync._send_link_structure": 2, f"snd::{RSYNC}:RSync._send_item": 4, f"{SR}.receive_directory_structure#entry": 4}
     extra_worlds = {"snd": cr.declare_sender, "walk": cr.declare_walk_loops}
     assumptions = [
